@@ -351,7 +351,7 @@ def main() -> int:
     rep = Report(PROP)
     t = tier()
     sd = seed()
-    n = 150 if t == "quick" else 2500
+    n = 360 if t == "quick" else 2500
     cases = [(i, sd, i % 3 == 0) for i in range(n)]
     for case, st, res in run_cases(run_case, cases):
         if st != "ok":
